@@ -12,7 +12,7 @@
     then() ends with _notify()); both [shipped] and [fixed] are good.  [shipped] is
     promise.py as it is; [fixed] has the repaired _notify (mode Drain). *)
 From Coq Require Import List ZArith Bool Arith Permutation.
-From RV Require Import Model.Promise Proofs.PromiseBase Proofs.PromiseInv Proofs.PromiseThms Proofs.PromiseSettle.
+From RV Require Import Model.Promise Proofs.PromiseBase Proofs.PromiseInv Proofs.PromiseThms Proofs.PromiseSettle Proofs.PromiseKinds.
 Import ListNotations.
 Open Scope list_scope.
 
@@ -34,6 +34,13 @@ Proof. exact reach_FT. Qed.
 Theorem C13_callback_after_settlement : forall c, good c -> forall prog s, reach c prog s ->
   forall p r isres arg k, In (EvCall p r isres arg k) (log s) -> state_of s p = mk_outcome isres arg.
 Proof. exact called_with_outcome. Qed.
+
+(** What runs is what was registered: the resolver given to that then() if the promise is
+    fulfilled, the rejector if it is rejected (the default propagation if none was given). Any cfg. *)
+Theorem C13_called_is_registered_callback : forall c prog s, reach c prog s ->
+  forall p r isres arg k, In (EvCall p r isres arg k) (log s) ->
+  exists cres crej, In (EvReg r p cres crej) (log s) /\ k = if isres then cres else crej.
+Proof. exact called_is_registered_callback. Qed.
 
 Theorem C13_no_callback_while_pending : forall c, good c -> forall prog s, reach c prog s ->
   forall p, state_of s p = Pending -> called s p = [].
@@ -142,6 +149,7 @@ Qed.
 Print Assumptions C13_settle_once.
 Print Assumptions C13_first_settlement_wins.
 Print Assumptions C13_callback_after_settlement.
+Print Assumptions C13_called_is_registered_callback.
 Print Assumptions C13_callback_at_most_once.
 Print Assumptions C13_callback_exactly_once.
 Print Assumptions C13_nothing_left_behind.
